@@ -34,10 +34,10 @@ def confirm(wt, prop, name):
     rc1, out1 = sh('bash SEEDED/run_demo.sh', cwd=wt, timeout=1800)
     log['demo_with_change'] = {'rc': rc1, 'tail': out1.strip().splitlines()[-6:]}
     # 3. without the change the demonstration passes
-    rcr, outr = sh('git apply -R SEEDED/patch.diff', cwd=wt)
+    rcr, outr = sh('git apply -R SEEDED/patch.diff && cmake --build _build 2>&1 | tail -1', cwd=wt)
     rc2, out2 = sh('bash SEEDED/run_demo.sh', cwd=wt, timeout=1800)
     log['demo_without_change'] = {'rc': rc2, 'tail': out2.strip().splitlines()[-6:]}
-    sh('git apply SEEDED/patch.diff', cwd=wt)
+    sh('git apply SEEDED/patch.diff && cmake --build _build 2>&1 | tail -1', cwd=wt)
     confirmed = ok_tests and rc1 != 0 and rc2 == 0 and rcr == 0
     print(json.dumps(log, indent=1))
     print('CONFIRMED' if confirmed else 'NOT CONFIRMED')
